@@ -954,3 +954,628 @@ Definition setupDynamicHeader (s : inflate) : inflate * ierr :=
         | _ => (s, err)
         end
   end.
+
+(* ---------------------------------------------------------------- inflate.go *)
+Definition prepareForLitBlock (s : inflate) : inflate * ierr :=
+  match loadBits s with
+  | None => (s, EPanic)
+  | Some s =>
+    let b := rd s in
+    if (r_len b <? 0)%Z then (s, EPanic)   (* excluded by tryDecodeHeader *)
+    else
+      let bl := Z.to_N (r_len b) in
+      let bytes := u8 (bl / 8) in
+      if bytes <? 4 then (s, EEndInput)
+      else
+        let bits := N.shiftr (r_bits b) (bl mod 8) in
+        let bl := bytes * 8 in
+        let len := N.land bits 0xFFFF in
+        let bits := N.shiftr bits 16 in
+        let nlen := N.land bits 0xFFFF in
+        let bits := N.shiftr bits 16 in
+        let bl := bl - 32 in
+        let s1 := set_rd s (mkBR bits (Z.of_N bl) (r_in b) (r_inlen b)) in
+        if negb (len =? 0xFFFF - nlen) then (s1, EInvalidBlock)
+        else
+          let rest := bl mod 8 in
+          let '(bl, bits) := if rest =? 0 then (bl, bits) else (bl - rest, N.shiftr bits rest) in
+          let bits := N.land bits (ones64 bl) in
+          let s2 := set_rd s (mkBR bits (Z.of_N bl) (r_in b) (r_inlen b)) in
+          (set_phase (set_litBlockLength s2 len) phaseLitBlock, ENone)
+  end.
+
+Definition tryDecodeHeader (s : inflate) : inflate * ierr :=
+  match readBits s 1 with
+  | None => (s, EPanic)
+  | Some (bf, s) =>
+    let s := set_bfinal s bf in
+    match readBits s 2 with
+    | None => (s, EPanic)
+    | Some (btype, s) =>
+      if (r_len (rd s) <? 0)%Z then (s, EEndInput)
+      else if btype =? 0 then prepareForLitBlock s
+      else if btype =? 1 then (setupStaticHeader s, ENone)
+      else if btype =? 2 then setupDynamicHeader s
+      else (s, EInvalidBlock)
+    end
+  end.
+
+(* rOffset *)
+Definition rOffset (s : inflate) (inputSize bitsLen0 : Z) : inflate :=
+  let start := (inputSize * 8 + bitsLen0)%Z in
+  let endv := (Z.of_N (r_inlen (rd s)) * 8 + r_len (rd s))%Z in
+  set_roffset s (roffset s + Z.quot (start - endv) 8)%Z.
+
+Definition readHeader (s : inflate) : inflate * ierr :=
+  let b0 := rd s in
+  let phase0 := phase s in
+  let staged := phase0 =? phaseDecodingHeader in
+  let hb := headerBuffered s in
+  let copySize := N.min (maxHdrSize - hb) (r_inlen b0) in
+  let tempLen := copySize + hb in
+  let s1 := if staged
+            then set_rd s (br_set_in b0 (headerBuffer s ++ firstn (N.to_nat copySize) (r_in b0)) tempLen)
+            else s in
+  let '(s2, err) := tryDecodeHeader s1 in
+  match err with
+  | EPanic | EFuel => (s2, err)
+  | _ =>
+    let read := (Z.of_N tempLen - Z.of_N (r_inlen (rd s2)) - Z.of_N hb)%Z in
+    if staged && ((read <? 0)%Z || (Z.of_N (r_inlen b0) <? read)%Z) then (s2, EPanic)
+    else
+      let s3 := if staged
+                then set_rd s2 (br_set_in (rd s2) (skipn (Z.to_nat read) (r_in b0))
+                                          (r_inlen b0 - Z.to_N read))
+                else s2 in
+      match err with
+      | EEndInput =>
+        let size := N.min (maxHdrSize - hb) (r_inlen b0) in
+        let s4 := set_header s3 (hb + size) (headerBuffer s ++ firstn (N.to_nat size) (r_in b0)) in
+        let s5 := set_rd s4 (mkBR (r_bits b0) (r_len b0) [] 0) in
+        (set_phase s5 phaseDecodingHeader, err)
+      | _ => (set_header s3 0 [], err)
+      end
+  end.
+
+(* ---------------------------------------------------------------- decode.go *)
+(* byteCopy / copy of a match inside hist: hist[curr+i] = hist[curr-dist+i], i = 0..length-1 *)
+Fixpoint byteCopy_nat (n : nat) (hist : arr) (curr dist : N) : arr :=
+  match n with
+  | O => hist
+  | S k => byteCopy_nat k (aset hist curr (aget hist (curr - dist))) (curr + 1) dist
+  end.
+Definition byteCopy (hist : arr) (curr dist length : N) : arr :=
+  byteCopy_nat (N.to_nat length) hist curr dist.
+
+Fixpoint lit_drain (fuel : nat) (b : bitrd) (out : arr) (written count length : N)
+  : option (bitrd * arr * N * N * bool) :=
+  (* the loop "for state.bitsLen != 0"; the bool says "count == length: return" *)
+  match fuel with
+  | O => None
+  | S f =>
+    if (r_len b =? 0)%Z then Some (b, out, written, count, false)
+    else
+      let out := aset out written (N.land (r_bits b) 255) in
+      let b := br_drop b 8 in
+      let count := count + 1 in
+      if count =? length then Some (b, out, written + 1, count, true)
+      else lit_drain f b out (written + 1) count length
+  end.
+
+Fixpoint copy_list (l : list N) (n : nat) (out : arr) (pos : N) : arr * list N :=
+  match n with
+  | O => (out, l)
+  | S k => match l with
+           | [] => (out, l)
+           | x :: r => copy_list r k (aset out pos x) (pos + 1)
+           end
+  end.
+
+Definition decodeLiteralBlock (s : inflate) (out : arr) (written : N) : inflate * arr * N * ierr :=
+  let s := set_phase s (if negb (bfinal s =? 0) then phaseStreamEnd else phaseNewBlock) in
+  if litBlockLength s =? 0 then (s, out, written, ENone)
+  else
+    let length := litBlockLength s in
+    let rest := outLen - written in
+    let '(length, s, err) :=
+      if rest <? length then (rest, set_phase s phaseLitBlock, EOutputOverflow)
+      else (length, s, ENone) in
+    if (ierr_eqb err EOutputOverflow) && (rest =? 0) then (s, out, written, err)
+    else
+      let b := rd s in
+      if (r_len b <? 0)%Z then (s, out, written, EPanic)
+      else
+        let avail := Z.to_N (r_len b) / 8 + r_inlen b in
+        let '(length, s, err) :=
+          if avail <? length then (avail, set_phase s phaseLitBlock, EEndInput)
+          else (length, s, err) in
+        let s := set_litBlockLength s (litBlockLength s - length) in
+        match lit_drain 16 b out written 0 length with
+        | None => (s, out, written, EFuel)
+        | Some (b, out, written, count, true) => (set_rd s b, out, written, err)
+        | Some (b, out, written, count, false) =>
+          let n := length - count in
+          let '(out, inrest) := copy_list (r_in b) (N.to_nat n) out written in
+          let num := N.min n (r_inlen b) in
+          (set_rd s (mkBR 0 (r_len b) inrest (r_inlen b - num)), out, written + num, err)
+        end.
+
+Definition set_wov (s : inflate) (lits len : N) : inflate :=
+  set_ov s (mkOV lits len (copyOverflowLength (ov s)) (copyOverflowDistance (ov s))).
+Definition set_cov (s : inflate) (len dist : N) : inflate :=
+  set_ov s (mkOV (writeOverflowLits (ov s)) (writeOverflowLen (ov s)) len dist).
+Definition end_of_block (s : inflate) : inflate :=
+  set_phase s (if bfinal s =? 1 then phaseStreamEnd else phaseNewBlock).
+
+(* result of the inner "for symCount > 0" loop: go on with the outer loop, or goto FINISH *)
+Inductive hres :=
+| HCont (s : inflate) (b : bitrd) (out : arr) (w : N)
+| HFin (s : inflate) (b : bitrd) (out : arr) (w : N) (e : ierr).
+
+(* distance symbol lookup: returns nextDist and the bit reader; None = index panic *)
+Definition dist_decode (t : tabs) (b : bitrd) : option (N * bitrd) :=
+  let nextBits := N.land (r_bits b) 1023 in
+  let nextSym := aget (distShort t) nextBits in
+  if N.land nextSym smallFlagBit =? 0 then
+    let bitCount := N.shiftr nextSym 11 in
+    let b := br_drop b bitCount in
+    if bitCount =? 0 then
+      Some (N.land invalidSymbolValue 31, br_set_len b (r_len b - Z.of_N nextSym)%Z)
+    else Some (N.land nextSym 31, b)
+  else
+    let bitMask := ones32 (N.shiftr (sub32 nextSym smallFlagBit) 11) in
+    let nextBits := u16 (N.land (r_bits b) bitMask) in
+    let idx := u16 (N.land nextSym 511 + N.shiftr nextBits 10) in
+    if 80 <=? idx then None
+    else
+      let nextSym := aget (distLong t) idx in
+      let bitCount := N.shiftr nextSym 10 in
+      let b := br_drop b bitCount in
+      if bitCount =? 0 then
+        Some (N.land invalidSymbolValue 31, br_set_len b (r_len b - Z.of_N nextSym)%Z)
+      else Some (N.land nextSym 31, b).
+
+Fixpoint huff_inner (fuel : nat) (s : inflate) (b : bitrd) (out : arr) (w : N)
+         (symCount nextLits : N) (bTemp : bitrd) (wTemp : N) : hres :=
+  match fuel with
+  | O => HFin s b out w EFuel
+  | S f =>
+    if symCount =? 0 then HCont s b out w
+    else
+      let nextLit := N.land nextLits 0xFFFF in
+      if (nextLit <? 256) || (1 <? symCount) then
+        if w =? outLen then
+          let s := set_wov s nextLits symCount in
+          let nextLits := N.shiftr nextLits (8 * (symCount - 1)) in
+          if nextLits <? 256 then HFin s b out w EOutputOverflow
+          else if nextLits =? 256 then
+            let s := set_wov s (writeOverflowLits (ov s)) (writeOverflowLen (ov s) - 1) in
+            HFin (end_of_block s) b out w EOutputOverflow
+          else
+            let s := set_wov s (writeOverflowLits (ov s)) (writeOverflowLen (ov s) - 1) in
+            huff_inner f s b out w 1 nextLits bTemp wTemp     (* continue *)
+        else
+          huff_inner f s b (aset out w (N.land nextLit 255)) (w + 1)
+                     (symCount - 1) (N.shiftr nextLits 8) bTemp wTemp
+      else if nextLit =? 256 then
+        huff_inner f (end_of_block s) b out w (symCount - 1) (N.shiftr nextLits 8) bTemp wTemp
+      else if nextLit <=? maxLitLenSym then
+        let repeatLength := nextLit - 254 in
+        match load_le15 b with
+        | None => HFin s b out w EPanic
+        | Some b =>
+          match dist_decode (tb s) b with
+          | None => HFin s b out w EPanic
+          | Some (nextDist, b) =>
+            let step2 (b : bitrd) (lookBackDist : N) : hres :=
+              if (r_len b <? 0)%Z then
+                HFin (set_wov s 0 0) bTemp out wTemp EEndInput
+              else if w <? lookBackDist then HFin s b out w EInvalidLookBack
+              else
+                let availOut := outLen - w in
+                let '(s, repeatLength) :=
+                  if availOut <? repeatLength
+                  then (set_cov s (repeatLength - availOut) lookBackDist, availOut)
+                  else (s, repeatLength) in
+                let out := byteCopy out w lookBackDist repeatLength in
+                let w := w + repeatLength in
+                if 0 <? copyOverflowLength (ov s) then HFin s b out w EOutputOverflow
+                else huff_inner f s b out w (symCount - 1) (N.shiftr nextLits 8) bTemp wTemp in
+            if (0 <=? r_len b)%Z then
+              if distLen <=? nextDist then HFin s b out w EInvalidSymbol
+              else
+                let bitCount := aget rfc_dist_extra nextDist in
+                match load_lt57 b with
+                | None => HFin s b out w EPanic
+                | Some b =>
+                  let '(extraBits, b) := next_bits b bitCount in
+                  step2 b (aget rfc_dist_start nextDist + extraBits)
+                end
+            else step2 b 0
+          end
+        end
+      else HFin s b out w EInvalidSymbol
+  end.
+
+(* one literal/length table lookup: returns the bit reader, symCount, nextLits; None = panic *)
+Definition litlen_decode (t : tabs) (b : bitrd) : option (bitrd * N * N) :=
+  let nextBits := N.land (r_bits b) 4095 in
+  let nextSym := aget (litShort t) nextBits in
+  if N.land nextSym largeFlagBit =? 0 then
+    let bitCount := N.shiftr nextSym 28 in
+    let b := br_drop b bitCount in
+    let nextSym := if bitCount =? 0 then invalidSymbolValue else nextSym in
+    Some (b, N.land (N.shiftr nextSym 26) 3, N.land nextSym largeShortSymMask)
+  else
+    let bitMask := ones32 (N.shiftr nextSym 26) in
+    let nextBits := N.land (u32 (r_bits b)) bitMask in
+    let idx := N.land nextSym largeShortSymMask + N.shiftr nextBits 12 in
+    if 1264 <=? idx then None
+    else
+      let nextSym := aget (litLong t) idx in
+      let bitCount := N.shiftr nextSym 10 in
+      let b := br_drop b bitCount in
+      let nextSym := if bitCount =? 0 then invalidSymbolValue else nextSym in
+      Some (b, 1, N.land nextSym 1023).
+
+Fixpoint huff_outer (fuel : nat) (s : inflate) (b : bitrd) (out : arr) (w : N)
+  : inflate * bitrd * arr * N * ierr :=
+  match fuel with
+  | O => (s, b, out, w, EFuel)
+  | S f =>
+    if phase s =? phaseHeaderDecoded then
+      match load_lt57 b with
+      | None => (s, b, out, w, EPanic)
+      | Some b =>
+        let bTemp := b in
+        let wTemp := w in
+        match load_le15 b with
+        | None => (s, b, out, w, EPanic)
+        | Some b =>
+          match litlen_decode (tb s) b with
+          | None => (s, b, out, w, EPanic)
+          | Some (b, symCount, nextLits) =>
+            if symCount =? 0 then (s, b, out, w, EInvalidSymbol)
+            else if (r_len b <? 0)%Z then (s, bTemp, out, w, EEndInput)
+            else
+              match huff_inner 8 s b out w symCount nextLits bTemp wTemp with
+              | HCont s b out w => huff_outer f s b out w
+              | HFin s b out w e => (s, b, out, w, e)
+              end
+          end
+        end
+      end
+    else (s, b, out, w, ENone)
+  end.
+
+(* decodeHuffman = decodeHuffmanLargeLoop (acceleration level 0) *)
+Definition decodeHuffman (s : inflate) (out : arr) (written : N) : inflate * arr * N * ierr :=
+  let s := set_cov s 0 0 in
+  let '(s, b, out, w, err) := huff_outer big_fuel s (rd s) out written in
+  (* FINISH *)
+  if (r_len b <? 0)%Z then
+    (* bit length of bits > bitsLen holds, and 1 << bitsLen panics (never reached) *)
+    (set_rd s b, out, w, match err with EFuel => EFuel | _ => EPanic end)
+  else
+    let bl := Z.to_N (r_len b) in
+    let bits := if bl <? N.size (r_bits b) then N.land (r_bits b) (ones64 bl) else r_bits b in
+    (set_rd s (br_set_bits b bits), out, w, err).
+
+(* ---------------------------------------------------------------- bufio.Reader over a chunked source *)
+Inductive terminal := TEOF | TErr.
+Inductive berror := BEOF | BSrc | BNoProgress | BBufferFull.
+
+Record bufrd := mkBuf {
+  bsize : N;                 (* len(b.buf) *)
+  bbuf : list N; blen : N;   (* b.buf[b.r:b.w] and its length *)
+  berr : option berror;      (* b.err *)
+  chunks : list (list N);    (* what the source will still deliver *)
+  term : terminal;
+  consumed : N               (* total bytes discarded (bookkeeping for the tester) *)
+}.
+
+(* source.Read(p) with len p = space: one chunk, or the part of it that fits *)
+Fixpoint take_upto (l : list N) (space : N) (acc : list N) (cnt : N) : list N * N * list N :=
+  match l with
+  | [] => (frev acc, cnt, [])
+  | x :: r => if space =? 0 then (frev acc, cnt, l) else take_upto r (space - 1) (x :: acc) (cnt + 1)
+  end.
+
+Definition src_read (cs : list (list N)) (t : terminal) (space : N)
+  : list N * N * option berror * list (list N) :=
+  match cs with
+  | [] => ([], 0, Some (match t with TEOF => BEOF | TErr => BSrc end), [])
+  | c :: rest =>
+    let '(got, n, lft) := take_upto c space [] 0 in
+    (got, n, None, match lft with [] => rest | _ => lft :: rest end)
+  end.
+
+Fixpoint fill_loop (i : nat) (b : bufrd) : bufrd :=
+  match i with
+  | O => mkBuf (bsize b) (bbuf b) (blen b) (Some BNoProgress) (chunks b) (term b) (consumed b)
+  | S k =>
+    let '(got, n, err, cs) := src_read (chunks b) (term b) (bsize b - blen b) in
+    let b := mkBuf (bsize b) (bbuf b ++ got) (blen b + n) (berr b) cs (term b) (consumed b) in
+    match err with
+    | Some e => mkBuf (bsize b) (bbuf b) (blen b) (Some e) (chunks b) (term b) (consumed b)
+    | None => if 0 <? n then b else fill_loop k b
+    end
+  end.
+
+(* fill; None = "bufio: tried to fill full buffer" *)
+Definition bfill (b : bufrd) : option bufrd :=
+  if bsize b <=? blen b then None else Some (fill_loop 100 b).
+
+Definition bBuffered (b : bufrd) : N := blen b.
+
+Fixpoint peek_loop (fuel : nat) (b : bufrd) (n : N) : option bufrd :=
+  match fuel with
+  | O => None
+  | S f =>
+    if (blen b <? n) && (blen b <? bsize b) && (match berr b with None => true | _ => false end)
+    then match bfill b with None => None | Some b => peek_loop f b n end
+    else Some b
+  end.
+
+(* Peek: returns the bytes, their number, the error; None = out of fuel *)
+Definition bPeek (b : bufrd) (n : N) : option (list N * N * option berror * bufrd) :=
+  match peek_loop big_fuel b n with
+  | None => None
+  | Some b =>
+    if bsize b <? n then Some (bbuf b, blen b, Some BBufferFull, b)
+    else if blen b <? n then
+      let err := match berr b with Some e => Some e | None => Some BBufferFull end in
+      Some (bbuf b, blen b, err,
+            mkBuf (bsize b) (bbuf b) (blen b) None (chunks b) (term b) (consumed b))
+    else Some (firstn (N.to_nat n) (bbuf b), n, None, b)
+  end.
+
+Fixpoint discard_loop (fuel : nat) (b : bufrd) (remain : N) : option (option berror * bufrd) :=
+  match fuel with
+  | O => None
+  | S f =>
+    let ob := if blen b =? 0 then bfill b else Some b in
+    match ob with
+    | None => None
+    | Some b =>
+      let skip := N.min (blen b) remain in
+      let b := mkBuf (bsize b) (skipn (N.to_nat skip) (bbuf b)) (blen b - skip) (berr b)
+                     (chunks b) (term b) (consumed b + skip) in
+      let remain := remain - skip in
+      if remain =? 0 then Some (None, b)
+      else match berr b with
+           | Some e => Some (Some e, mkBuf (bsize b) (bbuf b) (blen b) None (chunks b) (term b)
+                                           (consumed b))
+           | None => discard_loop f b remain
+           end
+    end
+  end.
+
+(* Discard(n), n > 0 *)
+Definition bDiscard (b : bufrd) (n : N) : option (option berror * bufrd) :=
+  if n =? 0 then Some (None, b) else discard_loop big_fuel b n.
+
+(* ---------------------------------------------------------------- reader.go *)
+Inductive rres := ROk | REOF | RUnexpectedEOF | RCorrupt (off : Z) | RSrcErr | RNoProgress
+                | RBufferFull | RPanic | RStuck.
+
+Record decompressor := mkD {
+  state : inflate;
+  writePos : N; readPos : N;
+  hist : arr;                       (* historyBuffer [2*historySize+lookAhead]uint8 *)
+  rBuf : bufrd;
+  derr : option rres;               (* f.err; None = nil *)
+  peekSize : N; eof : bool; haveBits : bool
+}.
+
+Definition newReader (bufsize : N) (cs : list (list N)) (t : terminal) : decompressor :=
+  mkD inflate0 0 0 aempty (mkBuf (N.max bufsize 16) [] 0 None cs t 0) None 0 false false.
+
+Definition rres_of_berror (e : berror) : rres :=
+  match e with BEOF => REOF | BSrc => RSrcErr | BNoProgress => RNoProgress
+             | BBufferFull => RBufferFull end.
+
+Definition set_state (f : decompressor) (s : inflate) : decompressor :=
+  mkD s (writePos f) (readPos f) (hist f) (rBuf f) (derr f) (peekSize f) (eof f) (haveBits f).
+
+Fixpoint decomp_loop (fuel : nat) (s : inflate) (out : arr) (idx : N) : inflate * arr * N * ierr :=
+  match fuel with
+  | O => (s, out, idx, EFuel)
+  | S f =>
+    if phase s =? phaseStreamEnd then (s, out, idx, ENone)
+    else
+      let '(s, err) :=
+        if (phase s =? phaseNewBlock) || (phase s =? phaseDecodingHeader) then readHeader s
+        else (s, ENone) in
+      match err with
+      | ENone =>
+        let '(s, out, idx, err) :=
+          if phase s =? phaseLitBlock then decodeLiteralBlock s out idx
+          else decodeHuffman s out idx in
+        match err with
+        | ENone => decomp_loop f s out idx
+        | _ => (s, out, idx, err)
+        end
+      | _ => (s, out, idx, err)
+      end
+  end.
+
+(* decomperss: returns the new decompressor (state, hist, writePos) and the error *)
+Definition decomperss (f : decompressor) : decompressor * ierr :=
+  let '(s, h, idx, err) := decomp_loop big_fuel (state f) (hist f) (writePos f) in
+  let '(s, h, idx) :=
+    if negb (writeOverflowLen (ov s) =? 0) then
+      let v := u32 (writeOverflowLits (ov s)) in
+      let h := aset (aset (aset (aset h idx (N.land v 255)) (idx + 1) (N.land (N.shiftr v 8) 255))
+                          (idx + 2) (N.land (N.shiftr v 16) 255)) (idx + 3) (N.shiftr v 24) in
+      (set_wov s 0 0, h, idx + writeOverflowLen (ov s))
+    else (s, h, idx) in
+  let '(s, h, idx) :=
+    if negb (copyOverflowLength (ov s) =? 0) then
+      (set_cov s 0 0, byteCopy h idx (copyOverflowDistance (ov s)) (copyOverflowLength (ov s)),
+       idx + copyOverflowLength (ov s))
+    else (s, h, idx) in
+  (mkD s idx (readPos f) h (rBuf f) (derr f) (peekSize f) (eof f) (haveBits f), err).
+
+(* the two identical "discard what was consumed, forget the input" blocks of step;
+   Some e = Discard failed with e *)
+Definition step_discard (f : decompressor) : option (option berror * decompressor) :=
+  let s := state f in
+  let discardSize := (Z.of_N (peekSize f) - Z.of_N (r_inlen (rd s)) - Z.quot (r_len (rd s)) 8)%Z in
+  let finish (f : decompressor) :=
+    set_state f (set_inputNil (set_rd (state f) (br_set_in (rd (state f)) [] 0)) true) in
+  if (0 <? discardSize)%Z then
+    match bDiscard (rBuf f) (Z.to_N discardSize) with
+    | None => None
+    | Some (Some e, rb) =>
+      Some (Some e, mkD (state f) (writePos f) (readPos f) (hist f) rb (derr f) (peekSize f) (eof f)
+                        (haveBits f))
+    | Some (None, rb) =>
+      Some (None, finish (mkD (state f) (writePos f) (readPos f) (hist f) rb (derr f) (peekSize f)
+                              (eof f) (haveBits f)))
+    end
+  else Some (None, finish f).
+
+(* step: returns the error (None = nil) *)
+Definition step (f : decompressor) : decompressor * option rres :=
+  if phase (state f) =? phaseFinish then (f, Some REOF)
+  else
+    (* if state.input == nil { ... } *)
+    let r1 : decompressor * option rres :=
+      if inputNil (state f) then
+        if (r_len (rd (state f)) <? 0)%Z then (f, Some RPanic)
+        else
+          let held := Z.to_N (Z.quot (r_len (rd (state f))) 8) in
+          let f := mkD (state f) (writePos f) (readPos f) (hist f) (rBuf f) (derr f) (peekSize f)
+                       false (haveBits f) in
+          let r0 : decompressor * option rres :=
+            if (bBuffered (rBuf f) <=? held) && negb (haveBits f) then
+              match bPeek (rBuf f) (held + 1) with
+              | None => (f, Some RStuck)
+              | Some (_, _, e, rb) =>
+                let f := mkD (state f) (writePos f) (readPos f) (hist f) rb (derr f) (peekSize f)
+                             (eof f) (haveBits f) in
+                match e with
+                | Some BSrc => (f, Some RSrcErr)
+                | Some BNoProgress => (f, Some RNoProgress)
+                | Some BEOF =>
+                  (mkD (state f) (writePos f) (readPos f) (hist f) (rBuf f) (derr f) (peekSize f)
+                       true (haveBits f), None)
+                | _ => (f, None)
+                end
+              end
+            else (f, None) in
+          match r0 with
+          | (f, Some e) => (f, Some e)
+          | (f, None) =>
+            match bPeek (rBuf f) (bBuffered (rBuf f)) with
+            | None => (f, Some RStuck)
+            | Some (bytes, n, _, rb) =>
+              if n <? held then (f, Some RPanic)
+              else
+                let s := state f in
+                let s := set_inputNil (set_rd s (br_set_in (rd s) (skipn (N.to_nat held) bytes)
+                                                           (n - held))) false in
+                (mkD s (writePos f) (readPos f) (hist f) rb (derr f) n (eof f) (haveBits f), None)
+            end
+          end
+      else (f, None) in
+    match r1 with
+    | (f, Some e) => (f, Some e)
+    | (f, None) =>
+      let readPos1 := writePos f in
+      let '(h, readPos1, writePos1) :=
+        if historySize * 2 <=? readPos1 then
+          (forN 0 historySize (fun i h => aset h i (aget h (readPos1 - historySize + i))) (hist f),
+           historySize, historySize)
+        else (hist f, readPos1, writePos f) in
+      let f := mkD (state f) writePos1 readPos1 h (rBuf f) (derr f) (peekSize f) (eof f) (haveBits f) in
+      let startInputSize := Z.of_N (r_inlen (rd (state f))) in
+      let startBitsLen := r_len (rd (state f)) in
+      let '(f, e) := decomperss f in
+      let f := set_state f (rOffset (state f) startInputSize startBitsLen) in
+      let f := mkD (state f) (writePos f) (readPos f) (hist f) (rBuf f) (derr f) (peekSize f) (eof f)
+                   (negb (ierr_eqb e EEndInput)) in
+      match e with
+      | EPanic => (f, Some RPanic)
+      | EFuel => (f, Some RStuck)
+      | _ =>
+        if isError e || (ierr_eqb e EEndInput && eof f) then
+          match step_discard f with
+          | None => (f, Some RStuck)
+          | Some (Some be, f) => (f, Some (rres_of_berror be))
+          | Some (None, f) =>
+            if ierr_eqb e EEndInput then (f, Some RUnexpectedEOF)
+            else (f, Some (RCorrupt (roffset (state f))))
+          end
+        else
+          let '(f, ret) :=
+            if phase (state f) =? phaseStreamEnd
+            then (set_state f (set_phase (state f) phaseFinish), Some REOF)
+            else (f, None) in
+          if (r_inlen (rd (state f)) =? 0) || (phase (state f) =? phaseFinish) then
+            match step_discard f with
+            | None => (f, Some RStuck)
+            | Some (Some be, f) => (f, Some (rres_of_berror be))
+            | Some (None, f) => (f, ret)
+            end
+          else (f, ret)
+      end
+    end.
+
+Fixpoint hist_slice (n : nat) (h : arr) (pos : N) : list N :=
+  match n with O => [] | S k => aget h pos :: hist_slice k h (pos + 1) end.
+
+Definition set_err (f : decompressor) (e : option rres) : decompressor :=
+  mkD (state f) (writePos f) (readPos f) (hist f) (rBuf f) e (peekSize f) (eof f) (haveBits f).
+
+(* Read(b) with len b = plen *)
+Fixpoint read_loop (fuel : nat) (f : decompressor) (plen : N) : decompressor * list N * rres :=
+  match fuel with
+  | O => (f, [], RStuck)
+  | S k =>
+    if readPos f <? writePos f then
+      let num := N.min plen (writePos f - readPos f) in
+      let bytes := hist_slice (N.to_nat num) (hist f) (readPos f) in
+      let f := mkD (state f) (writePos f) (readPos f + num) (hist f) (rBuf f) (derr f) (peekSize f)
+                   (eof f) (haveBits f) in
+      if writePos f =? readPos f
+      then (f, bytes, match derr f with Some e => e | None => ROk end)
+      else (f, bytes, ROk)
+    else
+      match derr f with
+      | Some e => (f, [], e)
+      | None =>
+        let '(f, e) := step f in
+        let f := set_err f e in
+        match e with
+        | Some e' => if writePos f <=? readPos f then (f, [], e') else read_loop k f plen
+        | None => read_loop k f plen
+        end
+      end
+  end.
+
+Definition dRead (f : decompressor) (plen : N) : decompressor * list N * rres :=
+  read_loop big_fuel f plen.
+
+Fixpoint erun_loop (f : decompressor) (reads : list N) : list (list N * rres) * decompressor :=
+  match reads with
+  | [] => ([], f)
+  | p :: rest =>
+    let '(f, bytes, r) := dRead f p in
+    match r with
+    | ROk => let '(l, f) := erun_loop f rest in ((bytes, r) :: l, f)
+    | _ => ([(bytes, r)], f)
+    end
+  end.
+
+(* the results of the successive Read calls, and the number of source bytes consumed
+   (sum of the Discards) at the end *)
+Definition erun_ext (bufsize : N) (cs : list (list N)) (t : terminal) (reads : list N)
+  : list (list N * rres) * N :=
+  let '(l, f) := erun_loop (newReader bufsize cs t) reads in
+  (l, consumed (rBuf f)).
+
+Definition erun (bufsize : N) (cs : list (list N)) (t : terminal) (reads : list N)
+  : list (list N * rres) :=
+  fst (erun_ext bufsize cs t reads).
